@@ -12,7 +12,8 @@ GENS = [dict(max_n=5), dict(max_n=4, multi=True, nbest_max=4), dict(max_n=5, mix
 
 
 def extra(ctx):
-    pass
+    import glue_checks
+    glue_checks.single_suite(ctx, {'score'}, [dict(max_n=5), dict(max_n=4, multi=True, nbest_max=3), dict(max_n=4, mixed_heads=True, multi=True)], ctx.budget(600, 6000))
 
 
 def run(ctx):
